@@ -330,7 +330,7 @@ func extractFunc(p *Program, pkg *packages.Package, fd *ast.FuncDecl, obj *types
 			}
 		}
 	}
-	wp.Ops = w.stmts(fd.Body.List)
+	wp.Ops = exitsToElse(pruneSkips(w.stmts(fd.Body.List), false, false), "return")
 	renameOps(wp.Ops, w.renames)
 	w.fieldUse(fd.Body)
 	return wp
@@ -520,8 +520,21 @@ func (w *wireWalker) litInvolvesCoder(fl *ast.FuncLit) bool {
 
 func (w *wireWalker) stmts(list []ast.Stmt) []Op {
 	var ops []Op
+	failed := false // a SetErr call earlier in this list: leaving afterwards is error handling, not layout
 	for _, s := range list {
-		ops = append(ops, w.stmt(s)...)
+		if es, ok := s.(*ast.ExprStmt); ok {
+			if call, ok := es.X.(*ast.CallExpr); ok {
+				if sel, ok := stripParens(call.Fun).(*ast.SelectorExpr); ok && sel.Sel.Name == "SetErr" {
+					failed = true
+				}
+			}
+		}
+		for _, o := range w.stmt(s) {
+			if o.Kind == "skip" && failed {
+				continue
+			}
+			ops = append(ops, o)
+		}
 	}
 	return mergeLenLoops(ops)
 }
@@ -605,6 +618,34 @@ func (w *wireWalker) stmt(s ast.Stmt) []Op {
 					if _, isStar := stripParens(s.Rhs[i]).(*ast.StarExpr); isStar {
 						if o := w.info.Defs[lid]; o != nil {
 							w.copyLocal[o] = true
+						}
+					}
+				}
+				// L = X.zeroingCopy(): the named fields of L are zero from here on
+				if zc, ok := stripParens(s.Rhs[i]).(*ast.CallExpr); ok {
+					if src, fields := w.zeroCopyCall(zc); src != nil {
+						for _, f := range fields {
+							if id, _ := w.rootIdent(s.Lhs[i]); id != nil {
+								if o := w.objOf(id); o != nil && w.copyLocal[o] {
+									w.pendZero[o] = append(w.pendZero[o], w.pathOf(s.Lhs[i])+f)
+									continue
+								}
+							}
+							w.prog.Zeroed = append(w.prog.Zeroed, w.pathOf(s.Lhs[i])+f)
+						}
+					}
+				}
+				// an interface-typed local assigned (not defined) from a value: it stands for what that value stands for;
+				// a type-assertion suffix is dropped so that the per-case copies of a type switch agree on one path
+				if id, ok := s.Lhs[i].(*ast.Ident); ok && s.Tok == token.ASSIGN && !w.involvesCoder(s.Rhs[i]) {
+					if o, isVar := w.info.Uses[id].(*types.Var); isVar && o.Parent() != nil && o.Pkg() != nil && o.Parent() != o.Pkg().Scope() {
+						if _, isIface := o.Type().Underlying().(*types.Interface); isIface {
+							if pth := w.pathOf(s.Rhs[i]); pth != "" && !strings.HasPrefix(pth, "<") && !strings.HasPrefix(pth, "$") {
+								if k := strings.LastIndex(pth, ".("); k >= 0 && strings.HasSuffix(pth, ")") {
+									pth = pth[:k]
+								}
+								w.paths[o] = pth
+							}
 						}
 					}
 				}
@@ -837,7 +878,23 @@ func (w *wireWalker) stmt(s ast.Stmt) []Op {
 				ops = append(ops, w.expr(r, "$ret")...)
 			}
 		}
+		// returning a non-nil error is rejecting, not layout
+		if n := len(s.Results); n > 0 {
+			last := stripParens(s.Results[n-1])
+			if t := w.info.TypeOf(last); t != nil && isErrorType(t) {
+				if id, ok := last.(*ast.Ident); !ok || id.Name != "nil" {
+					return ops
+				}
+			}
+		}
+		// leaving early skips whatever would be written/read afterwards (pruned again if nothing follows)
+		ops = append(ops, Op{Kind: "skip", Typ: "return", Pos: s.Pos()})
 		return ops
+	case *ast.BranchStmt:
+		if s.Label == nil && (s.Tok == token.CONTINUE || s.Tok == token.BREAK) {
+			return []Op{{Kind: "skip", Typ: s.Tok.String(), Pos: s.Pos()}}
+		}
+		return nil
 	case *ast.DeferStmt:
 		if w.involvesCoder(s.Call) {
 			return []Op{w.opaque(s.Pos(), "defer involving coder")}
@@ -848,7 +905,7 @@ func (w *wireWalker) stmt(s ast.Stmt) []Op {
 			return []Op{w.opaque(s.Pos(), "go statement involving coder")}
 		}
 		return nil
-	case *ast.IncDecStmt, *ast.BranchStmt, *ast.EmptyStmt:
+	case *ast.IncDecStmt, *ast.EmptyStmt:
 		return nil
 	case *ast.LabeledStmt:
 		return w.stmt(s.Stmt)
@@ -1015,6 +1072,9 @@ func (w *wireWalker) pathOf(e ast.Expr) string {
 	case *ast.CallExpr:
 		if w.isConversion(x) && len(x.Args) == 1 {
 			return w.pathOf(x.Args[0])
+		}
+		if src, _ := w.zeroCopyCall(x); src != nil {
+			return w.pathOf(src) // a copy of src with some fields zeroed: same access path
 		}
 		if id, ok := x.Fun.(*ast.Ident); ok && (id.Name == "len" || id.Name == "new") && len(x.Args) == 1 {
 			if id.Name == "len" {
@@ -1200,7 +1260,7 @@ func (w *wireWalker) call(c *ast.CallExpr, lhs string) []Op {
 						ops = append(ops, w.expr(a, lhs)...)
 					}
 				}
-				return append(ops, Op{Kind: "fn", Typ: "closure " + id.Name, Sub: w.stmts(fl.Body.List), Pos: c.Pos()})
+				return append(ops, Op{Kind: "fn", Typ: "closure " + id.Name, Sub: exitsToElse(pruneSkips(w.stmts(fl.Body.List), false, false), "return"), Pos: c.Pos()})
 			}
 		}
 	}
@@ -1269,6 +1329,13 @@ func (w *wireWalker) call(c *ast.CallExpr, lhs string) []Op {
 						return []Op{{Kind: "dyn", Path: w.pathOf(sel.X), Typ: fn.Name(), Pos: c.Pos()}}
 					}
 					std := fn.Name() == "EncodeTo" || fn.Name() == "DecodeFrom"
+					if zc, ok := stripParens(sel.X).(*ast.CallExpr); ok {
+						if src, fields := w.zeroCopyCall(zc); src != nil {
+							for _, f := range fields {
+								w.prog.Zeroed = append(w.prog.Zeroed, w.pathOf(src)+f)
+							}
+						}
+					}
 					op := Op{Kind: "ref", Typ: typeName(rt), Path: w.pathOf(sel.X), Pos: c.Pos()}
 					if !std {
 						op.Typ = typeName(rt) + "." + fn.Name()
@@ -1498,7 +1565,7 @@ func (w *wireWalker) fnArg(e ast.Expr, elemPath string) []Op {
 				}
 			}
 		}
-		ops := w.stmts(x.Body.List)
+		ops := exitsToElse(pruneSkips(w.stmts(x.Body.List), false, false), "return") // a function literal's returns end the literal
 		for i := range ops {
 			if ops[i].Path == "$ret" {
 				ops[i].Path = elemPath
@@ -1830,3 +1897,251 @@ func (w *wireWalker) pkgVarConst(e ast.Expr) constant.Value {
 	return m[field]
 }
 
+
+// zeroCopyCall: c calls a module function or method that takes one struct VALUE (its receiver or only
+// parameter), zeroes some of its fields (through a zeroer such as nilSigs(&v.A, &v.B) or "v.A = T{}") and
+// returns it. Returns the expression the copy is made of and the selectors of the zeroed fields.
+func (w *wireWalker) zeroCopyCall(c *ast.CallExpr) (ast.Expr, []string) {
+	fn, _ := typeutil.Callee(w.info, c).(*types.Func)
+	if fn == nil || fn.Pkg() == nil || !strings.HasPrefix(fn.Pkg().Path(), modPath) {
+		return nil, nil
+	}
+	sig := fn.Type().(*types.Signature)
+	var src ast.Expr
+	switch {
+	case sig.Recv() != nil && sig.Params().Len() == 0:
+		sel, ok := stripParens(c.Fun).(*ast.SelectorExpr)
+		if !ok {
+			return nil, nil
+		}
+		src = sel.X
+	case sig.Recv() == nil && sig.Params().Len() == 1 && len(c.Args) == 1:
+		src = c.Args[0]
+	default:
+		return nil, nil
+	}
+	if sig.Results().Len() != 1 {
+		return nil, nil
+	}
+	fd, pkg := w.p.Decl(fn)
+	if fd == nil || fd.Body == nil || pkg == nil {
+		return nil, nil
+	}
+	// the value parameter
+	var pid *ast.Ident
+	if fd.Recv != nil && len(fd.Recv.List) == 1 && len(fd.Recv.List[0].Names) == 1 {
+		pid = fd.Recv.List[0].Names[0]
+	} else if fd.Recv == nil && len(fd.Type.Params.List) == 1 && len(fd.Type.Params.List[0].Names) == 1 {
+		pid = fd.Type.Params.List[0].Names[0]
+	}
+	if pid == nil {
+		return nil, nil
+	}
+	pobj := pkg.TypesInfo.Defs[pid]
+	if pobj == nil {
+		return nil, nil
+	}
+	if _, isStruct := pobj.Type().Underlying().(*types.Struct); !isStruct {
+		return nil, nil
+	}
+	if !types.Identical(pobj.Type(), sig.Results().At(0).Type()) {
+		return nil, nil
+	}
+	var fields []string
+	returnsParam, other := false, false
+	for _, st := range fd.Body.List {
+		switch x := st.(type) {
+		case *ast.ReturnStmt:
+			if len(x.Results) == 1 {
+				if id, ok := stripParens(x.Results[0]).(*ast.Ident); ok && pkg.TypesInfo.Uses[id] == pobj {
+					returnsParam = true
+					continue
+				}
+			}
+			other = true
+		case *ast.ExprStmt:
+			call, ok := x.X.(*ast.CallExpr)
+			if !ok {
+				other = true
+				continue
+			}
+			// zeroer(&p.A, &p.B)
+			var body *ast.BlockStmt
+			if zf, _ := typeutil.Callee(pkg.TypesInfo, call).(*types.Func); zf != nil {
+				if zd, _ := w.p.Decl(zf); zd != nil {
+					body = zd.Body
+				}
+			}
+			if body == nil || !isZeroer(body) {
+				other = true
+				continue
+			}
+			for _, a := range call.Args {
+				u, ok := stripParens(a).(*ast.UnaryExpr)
+				if !ok || u.Op != token.AND {
+					other = true
+					continue
+				}
+				sel, ok := stripParens(u.X).(*ast.SelectorExpr)
+				if !ok {
+					other = true
+					continue
+				}
+				if id, ok := stripParens(sel.X).(*ast.Ident); ok && pkg.TypesInfo.Uses[id] == pobj {
+					fields = append(fields, "."+sel.Sel.Name)
+				} else {
+					other = true
+				}
+			}
+		case *ast.AssignStmt:
+			if len(x.Lhs) == 1 && len(x.Rhs) == 1 && isZeroExpr(x.Rhs[0]) {
+				if sel, ok := stripParens(x.Lhs[0]).(*ast.SelectorExpr); ok {
+					if id, ok := stripParens(sel.X).(*ast.Ident); ok && pkg.TypesInfo.Uses[id] == pobj {
+						fields = append(fields, "."+sel.Sel.Name)
+						continue
+					}
+				}
+			}
+			other = true
+		default:
+			other = true
+		}
+	}
+	if !returnsParam || other || len(fields) == 0 {
+		return nil, nil
+	}
+	return src, fields
+}
+
+// pruneSkips removes "skip" ops that skip nothing: a return with no write after it anywhere in the function,
+// a continue/break with no write after it in the enclosing loop body. What remains marks a data-dependent early
+// exit that changes which bytes are written.
+func pruneSkips(ops []Op, afterInLoop, afterInFunc bool) []Op {
+	var out []Op
+	// does a real (non-skip) op occur later in this list?
+	realAfter := make([]bool, len(ops)+1)
+	for i := len(ops) - 1; i >= 0; i-- {
+		realAfter[i] = realAfter[i+1] || hasRealOp(ops[i:i+1])
+	}
+	for i, o := range ops {
+		later := realAfter[i+1]
+		if o.Kind == "skip" {
+			keep := false
+			switch o.Typ {
+			case "return":
+				keep = later || afterInLoop || afterInFunc
+			default: // continue, break: the rest of the loop body (and, for break, later iterations)
+				keep = later || afterInLoop
+			}
+			if keep {
+				out = append(out, o)
+			}
+			continue
+		}
+		if o.Kind == "loop" || o.Kind == "slice" {
+			o.Sub = pruneSkips(o.Sub, false, later || afterInLoop || afterInFunc)
+		} else {
+			o.Sub = pruneSkips(o.Sub, later || afterInLoop, later || afterInFunc)
+		}
+		if len(o.Cases) > 0 {
+			cs := make([]OpCase, len(o.Cases))
+			for j, c := range o.Cases {
+				cs[j] = OpCase{Tag: c.Tag, Ops: pruneSkips(c.Ops, later || afterInLoop, later || afterInFunc)}
+			}
+			o.Cases = cs
+		}
+		// a container left with nothing inside disappears (it only held a pruned skip)
+		if (o.Kind == "cond" || o.Kind == "loop") && len(o.Sub) == 0 && len(o.Cases) == 0 {
+			continue
+		}
+		if o.Kind == "switch" {
+			any := false
+			for _, c := range o.Cases {
+				if len(c.Ops) > 0 {
+					any = true
+				}
+			}
+			if !any {
+				continue
+			}
+		}
+		out = append(out, o)
+	}
+	return out
+}
+
+func hasRealOp(ops []Op) bool {
+	for _, o := range ops {
+		if o.Kind == "skip" {
+			continue
+		}
+		if o.Kind == "cond" || o.Kind == "loop" || o.Kind == "switch" {
+			if hasRealOp(o.Sub) {
+				return true
+			}
+			for _, c := range o.Cases {
+				if hasRealOp(c.Ops) {
+					return true
+				}
+			}
+			continue
+		}
+		return true
+	}
+	return false
+}
+
+// exitsToElse rewrites "if P { A; return }; B" as "if P { A } else { B }" (and, inside loop bodies, the same for
+// continue): the two spellings write the same bytes. kind is the exit that ends this list ("return" at function
+// level, "continue" in a loop body).
+func exitsToElse(ops []Op, kind string) []Op {
+	for i := range ops {
+		o := &ops[i]
+		switch o.Kind {
+		case "loop", "slice":
+			o.Sub = exitsToElse(o.Sub, "continue")
+		case "cond":
+			o.Sub = exitsToElse(o.Sub, kind)
+		}
+		for j := range o.Cases {
+			o.Cases[j].Ops = exitsToElse(o.Cases[j].Ops, kind)
+		}
+	}
+	// leaving because the coder has already failed is error handling, not layout
+	{
+		var kept []Op
+		for _, o := range ops {
+			if o.Kind == "cond" && strings.Contains(o.Typ, "Err()") && !hasRealOp(o.Sub) {
+				continue
+			}
+			kept = append(kept, o)
+		}
+		ops = kept
+	}
+	for i, o := range ops {
+		if o.Kind != "cond" || len(o.Sub) == 0 {
+			continue
+		}
+		last := o.Sub[len(o.Sub)-1]
+		if last.Kind != "skip" || (last.Typ != kind && last.Typ != "return") {
+			continue
+		}
+		head := append([]Op{}, ops[:i]...)
+		body := o.Sub[:len(o.Sub)-1]
+		if len(body) > 0 {
+			c := o
+			c.Sub = body
+			head = append(head, c)
+		}
+		rest := exitsToElse(append([]Op{}, ops[i+1:]...), kind)
+		if len(rest) > 0 {
+			neg := "!(" + o.Typ + ")"
+			if strings.HasPrefix(o.Typ, "!(") && strings.HasSuffix(o.Typ, ")") {
+				neg = o.Typ[2 : len(o.Typ)-1]
+			}
+			head = append(head, Op{Kind: "cond", Typ: neg, Sub: rest, Pos: o.Pos})
+		}
+		return head
+	}
+	return ops
+}
